@@ -23,13 +23,13 @@ structure UnitRec where
   pfx     : Pfx
   factors : Factors
   dim     : Dim
-  names   : List String := []
-  syms    : List String := []
   deriving DecidableEq, Repr, Inhabited
 
 structure St where
   ndim       : Nat                              -- number of fundamental dimensions
   units      : List UnitRec                     -- Unit._known.values(), insertion order
+  nameLog    : List (UId × String) := []        -- every (unit, name) of the units' `names` tuples
+  symLog     : List (UId × String) := []        -- every (unit, symbol) of the `symbols` tuples
   unitByName : List (String × UId) := []        -- Unit._by_name
   unitBySym  : List (String × UId) := []        -- Unit._by_symbol
   pfxByName  : List (String × Pfx) := []        -- Prefix._by_name
@@ -62,7 +62,7 @@ def simplify (one : UId) (fs : Factors) : Factors :=
   if kept.isEmpty then [(one, 1)] else kept
 
 /-- `Unit._build_key`'s factor part: the items sorted by the identity of the base unit. -/
-def sortKey (fs : Factors) : Factors := fs.mergeSort (fun a b => decide (a.1 ≤ b.1))
+def sortKey (fs : Factors) : Factors := isort (fun a b => decide (a.1 ≤ b.1)) fs
 
 /-- `key in cls._known` / `cls._known[key]`. -/
 def findUnit (us : List UnitRec) (p : Pfx) (fs : Factors) : Option UId :=
@@ -74,6 +74,10 @@ namespace St
 def unit? (s : St) (i : UId) : Option UnitRec := s.units[i]?
 def unit! (s : St) (i : UId) : UnitRec := s.units.getD i default
 def dimOfUnit (s : St) (i : UId) : Dim := (s.unit! i).dim
+/-- `unit.names` -/
+def namesOf (s : St) (i : UId) : List String := (s.nameLog.filter (fun e => e.1 == i)).map (·.2)
+/-- `unit.symbols` -/
+def symsOf (s : St) (i : UId) : List String := (s.symLog.filter (fun e => e.1 == i)).map (·.2)
 
 /-- `Unit(prefix, factors, dimension)` without a name: return the interned unit with this
     key **ignoring `dimension`**, else intern a new record carrying `dimension`. -/
@@ -120,9 +124,11 @@ def rootUnit (s : St) (a : UId) (n : Int) : St × Except Exc UId :=
         let (s', i) := s.newUnit p (simplify s.one (ua.factors.map (fun f => (f.1, Int.fdiv f.2 n)))) d
         (s', .ok i)
 
-/-- The dimension of a factor mapping: `reduce(mul, (u.dimension**e for u, e in fs.items()))`. -/
+/-- The dimension of a factor mapping: `reduce(mul, (u.dimension**e for u, e in fs.items()))`
+    (written as a right fold; dimension vectors of one length form a commutative monoid, so
+    the fold direction does not matter for the value, and a dimension *is* its value). -/
 def dimOf (s : St) (fs : Factors) : Dim :=
-  fs.foldl (fun d f => d.mul ((s.dimOfUnit f.1).pow f.2)) (Dim.number s.ndim)
+  fs.foldr (fun f d => Dim.mul ((s.dimOfUnit f.1).pow f.2) d) (Dim.number s.ndim)
 
 /-- `Unit.as_ratio` (after the `fix:` commit: each side's dimension is the product of its
     own kept factors' dimensions). -/
@@ -150,28 +156,39 @@ def pmulUnit (s : St) (p : Pfx) (a : UId) : St × Except Exc UId :=
 
 /-! ### naming -/
 
+def nameClash (s : St) (a : UId) : Option String → Bool
+  | some n => n != "" && (match lookup n s.unitByName with | some j => j != a | none => false)
+  | none => false
+
+def symClash (s : St) (a : UId) : Option String → Bool
+  | some y => y != "" && ((match lookup y s.unitBySym with | some j => j != a | none => false)
+                          || y.contains ' ')
+  | none => false
+
+/-- `self.names = self.names + (name,); self._by_name[name] = self` -/
+def bindName (s : St) (a : UId) : Option String → St
+  | some n => if n == "" then s else
+      { s with nameLog := s.nameLog ++ [(a, n)],
+               unitByName := if (lookup n s.unitByName).isSome then s.unitByName else s.unitByName ++ [(n, a)] }
+  | none => s
+
+/-- `self.symbols = self.symbols + (symbol,); self._by_symbol[symbol] = self` -/
+def bindSym (s : St) (a : UId) : Option String → St
+  | some y => if y == "" then s else
+      { s with symLog := s.symLog ++ [(a, y)],
+               unitBySym := if (lookup y s.unitBySym).isSome then s.unitBySym else s.unitBySym ++ [(y, a)] }
+  | none => s
+
 /-- `Unit.alias` (after the `fix:` commit: all checks, then all mutations). -/
 def aliasUnit (s : St) (a : UId) (name sym : Option String) : St × Except Exc Unit :=
-  let nameClash := match name with
-    | some n => n != "" && (match lookup n s.unitByName with | some j => j != a | none => false)
-    | none => false
-  if nameClash then (s, .error .valueError) else
-  let symClash := match sym with
-    | some y => y != "" && ((match lookup y s.unitBySym with | some j => j != a | none => false)
-                            || y.contains ' ')
-    | none => false
-  if symClash then (s, .error .valueError) else
-  let s1 := match name with
-    | some n => if n == "" then s else
-        { s with units := s.units.modify a (fun (u : UnitRec) => { u with names := u.names ++ [n] }),
-                 unitByName := if (lookup n s.unitByName).isSome then s.unitByName else s.unitByName ++ [(n, a)] }
-    | none => s
-  let s2 := match sym with
-    | some y => if y == "" then s1 else
-        { s1 with units := s1.units.modify a (fun (u : UnitRec) => { u with syms := u.syms ++ [y] }),
-                  unitBySym := if (lookup y s1.unitBySym).isSome then s1.unitBySym else s1.unitBySym ++ [(y, a)] }
-    | none => s1
-  (s2, .ok ())
+  if s.nameClash a name then (s, .error .valueError)
+  else if s.symClash a sym then (s, .error .valueError)
+  else ((s.bindName a name).bindSym a sym, .ok ())
+
+/-- Intern a fresh base unit: its key is `{self: 1}`. -/
+def appendBase (s : St) (d : Dim) : St :=
+  { s with units := s.units ++ [({ pfx := Pfx.identity, factors := [(s.units.length, 1)], dim := d } : UnitRec)],
+           base := s.base ++ [s.units.length] }
 
 /-- `Unit.define` (base unit). -/
 def defineUnit (s : St) (d : Dim) (name sym : String) : St × Except Exc UId :=
@@ -180,9 +197,7 @@ def defineUnit (s : St) (d : Dim) (name sym : String) : St × Except Exc UId :=
   else if sym != "" && sym.contains ' ' then (s, .error .valueError)
   else
     let i := s.units.length
-    let s1 : St := { s with units := s.units ++ [({ pfx := Pfx.identity, factors := [(i, 1)], dim := d } : UnitRec)],
-                            base := s.base ++ [i] }
-    let (s2, _) := s1.aliasUnit i (some name) (some sym)
+    let (s2, _) := (s.appendBase d).aliasUnit i (some name) (some sym)
     (s2, .ok i)
 
 /-- `Unit.derive`. -/
